@@ -225,11 +225,15 @@ def verify_function(spec, budget_s=20.0):
     # vacuity: canaries must NOT be provable
     res.canary_ok = True
     res.canaries = len(canaries)
+    dead = 0
     for c in canaries:
       solve.discharge([c], min(budget_s, 1.5), portfolio=False)
       if c.status == 'unsat':
-        res.canary_ok = False
-        res.notes.append(f'VACUOUS: assumptions on path {c.sig} are contradictory')
+        dead += 1  # this return point is unreachable under the contract (its obligations hold vacuously)
+    res.dead_paths = dead
+    if canaries and dead == len(canaries):
+      res.canary_ok = False
+      res.notes.append('VACUOUS: every return point is unreachable: the assumptions (requires / summaries) are contradictory')
   except OutsideSubset as e:
     res.outside = str(e)
   except LookupError as e:
